@@ -31,7 +31,7 @@ pub fn c12_world_cfg() -> WorldCfg {
 		p_inline_wrap: 20,
 		p_pois_coll: 20,
 		p_copy_permuted: 40,
-		p_zst_member: 0,
+		p_zst_member: 12,
 		max_members: 4,
 		allow_dups: false,
 		p_allow_dup: 0,
